@@ -6,7 +6,7 @@ cd "$(dirname "$0")"
 mkdir -p .cache evidence replays
 export CARGO_NET_OFFLINE=true
 (cd regexeq && CARGO_TARGET_DIR="$PWD/../.cache/regexeq-target" cargo build --release --offline >/dev/null 2>&1) || echo "setup: regexeq will be built on first use"
-(cd witness && CARGO_TARGET_DIR="$PWD/../.cache/witness-target" cargo build --release --offline >/dev/null 2>&1) || echo "setup: witness will be built on first use"
+python3 -c "import sys; sys.path.insert(0, 'lib'); import witness; witness._exe()" >/dev/null 2>&1 || echo "setup: witness will be built on first use"
 command -v verus >/dev/null || { echo "verus not on PATH"; exit 1; }
 cargo kani --version >/dev/null 2>&1 || { echo "cargo kani not available"; exit 1; }
 exit 0
